@@ -248,6 +248,11 @@ def random_spec(rng, family="any", n_max=8, a_max=4, label_kind=None, uniform_ac
                 r = rand_reward()
                 if family == "zerocycle" and i not in absorbing:
                     r = rand_reward()
+                if q == 0.0 and rng.random() < 0.5:
+                    # the reward FUNCTION may say anything about a transition that cannot happen: make it larger than
+                    # every real reward, so that whoever lets it leak (a maximum, an unweighted sum) is found out
+                    r = abs(r) * 10.0 + 50.0
+                    sp.meta["big_reward_on_impossible_transition"] = True
                 sp.R[(s, a, t)] = r
         # exact duplicate action (bit-identical) to manufacture exact ties
         if (allow_dup_actions and not dup_done and i not in absorbing and len(sp.acts[s]) >= 2
@@ -260,6 +265,47 @@ def random_spec(rng, family="any", n_max=8, a_max=4, label_kind=None, uniform_ac
             sp.meta.setdefault("dup", []).append((repr(s), repr(a0), repr(a1)))
             dup_done = rng.random() < 0.5
 
+    if family in ("any", "avg") and rng.random() < 0.15:
+        # a SINK THAT PAYS: every action self-loops with probability 1, the rewards cancel (+r, -r[, ...]) but are not
+        # all zero - so the state is NOT absorbing (its value is r/(1-gamma), its gain r), whatever a sum says
+        dup_states = {d[0] for d in sp.meta.get("dup", [])}
+        cand = [i for i in idx if i not in absorbing and i not in trap and len(sp.acts[states[i]]) >= 2
+                and repr(states[i]) not in dup_states]
+        if cand:
+            i = rng.choice(cand)
+            s = states[i]
+            acts_ = list(sp.acts[s])
+            r = float(rng.choice([1, 2, 3]))
+            vals = [r, -r] if len(acts_) == 2 else [r] + [-r / (len(acts_) - 1)] * (len(acts_) - 1)
+            if len(acts_) == 4:
+                vals = [r, -r, 2 * r, -2 * r]
+            rng.shuffle(vals)
+            for a, v in zip(acts_, vals):
+                sp.P[(s, a)] = [(s, 1.0)]
+                sp.kind[(s, a)] = rng.choice(["dict", "det", "uniform"])
+                for key in [k_ for k_ in sp.R if k_[0] == s and k_[1] == a]:
+                    del sp.R[key]
+                sp.R[(s, a, s)] = v
+            sp.meta["paying_sink"] = repr(s)
+    if family in ("any", "proper") and rng.random() < 0.12:
+        # (not for the average-reward family: its reference is a linear program solved to ~1e-7 feasibility, which cannot
+        # tell a probability of 1e-12 from 0)
+        # a RARE BUT POSSIBLE transition: one successor keeps an exact tiny probability d, the rest of its mass goes to
+        # another successor of the same action (the list still sums to 1 exactly as floats)
+        dup_states = {d_[0] for d_ in sp.meta.get("dup", [])}
+        cands = [key for key, lst in sp.P.items() if sp.kind[key] == "dict" and sum(1 for _, q in lst if q > 0) >= 2
+                 and key[0] not in {states[i] for i in absorbing} and repr(key[0]) not in dup_states]
+        if cands:
+            key = rng.choice(sorted(cands, key=repr))
+            lst = list(sp.P[key])
+            pos = [k_ for k_, (_, q) in enumerate(lst) if q > 0]
+            k_small, k_big = pos[-1], pos[0]
+            d = rng.choice([1e-9, 2.0 ** -40, 1e-12, 2.0 ** -50])       # 1 - d is still a float below 1
+            moved = lst[k_small][1] - d
+            lst[k_small] = (lst[k_small][0], d)
+            lst[k_big] = (lst[k_big][0], lst[k_big][1] + moved)
+            sp.P[key] = lst
+            sp.meta["tiny_transition"] = d
     if near_absorbing and rng.random() < 0.35:
         # a state that ALMOST self-loops (probability 1 - d) with zero rewards: not absorbing by definition
         cand = [i for i in idx if i not in absorbing and i not in trap]
